@@ -23,7 +23,7 @@ def content_for(entry):
 def file_name(entry):
     k = entry["kind"]
     n = entry["name"]
-    return {"note": n + ".md", "mdmd": n + ".md.md", "txt": n + ".txt", "noext": n}[k]
+    return {"note": n + ".md", "mdmd": n + ".md.md", "txt": n + ".txt", "noext": n, "link": n + ".md"}[k]
 
 
 def rel_path(entry):
@@ -37,12 +37,25 @@ def materialize(tree, root):
         files[p] = content_for(e).encode()
     if os.path.isdir(root):
         shutil.rmtree(root)
+    links = {rel_path(e) for e in tree if e["kind"] == "link"}
     for p, b in files.items():
         full = os.path.join(root, p)
         os.makedirs(os.path.dirname(full), exist_ok=True)
+        if p in links:
+            # the note is a symbolic link to a file outside the library
+            tgt = link_target(root, p)
+            os.makedirs(os.path.dirname(tgt), exist_ok=True)
+            with open(tgt, "wb") as f:
+                f.write(b)
+            os.symlink(tgt, full)
+            continue
         with open(full, "wb") as f:
             f.write(b)
     return files
+
+
+def link_target(root, p):
+    return os.path.join(os.path.dirname(root), "targets", p.replace("/", "_"))
 
 
 def snapshot(root):
@@ -184,7 +197,8 @@ def run_case(iwe, vh, case_id, case, work):
     tree, fault = case["tree"], case["fault"]
     root = os.path.join(work, "run", "c%d" % case_id, "lib")
     files = materialize(tree, root)
-    notes = sorted(rel_path(e) for e in tree if e["kind"] in ("note", "mdmd"))
+    notes = sorted(rel_path(e) for e in tree if e["kind"] in ("note", "mdmd", "link"))
+    links = sorted(rel_path(e) for e in tree if e["kind"] == "link")
     mdmd = {rel_path(e) for e in tree if e["kind"] == "mdmd"}
     others = sorted(p for p in files if p not in notes)
     new = expected_new(vh, notes, files)
@@ -238,6 +252,14 @@ def run_case(iwe, vh, case_id, case, work):
     for pth in notes:
         ev["notes"].append({"path": pth, "state": classify(after.get(pth), files[pth], new.get(pth)), "mdmd": pth in mdmd,
                             "alt": pth[:-3] if pth in mdmd else ""})
+    # what a symbolic link points at is old or new and whole, whichever way the note was rewritten
+    ev["targets"] = []
+    for pth in links:
+        try:
+            now = open(link_target(root, pth), "rb").read()
+        except OSError:
+            now = None
+        ev["targets"].append({"path": pth, "state": classify(now, files[pth], new.get(pth))})
     for pth in others:
         now = after.get(pth)
         ev["others"].append({"path": pth, "state": "old" if now == files[pth] else ("absent" if now is None else "changed")})
